@@ -73,6 +73,7 @@ type lbEngine struct {
 	recorded    map[string]bool
 	scanNeed    map[string]int64 // C14/R10: terminator -> bytes of the opener the search must have left behind
 	searchCalls map[*ssa.Function][]*ssa.Call
+	prefixTests map[*ssa.Function]int // terminator tests made through a HasPrefix helper at offset 0, per function
 	clsSets     map[*ssa.Function]*bset
 	paramStart  bool // C14/R14: what is known about the first two bytes where Kind = <param> is stored
 	posProbe    map[*ssa.Call]bool          // summary run over File.Position: is the argument of this ResolvePos call proved <= len(Buffer)?
@@ -1728,6 +1729,22 @@ func (e *lbEngine) execBlock(in *lbInst, b *ssa.BasicBlock, st *lstate, rets *[]
 			if os.Getenv("VERIF_LB_IFDEBUG") != "" && in.fn.Name() == "skipComment" {
 				fmt.Printf("LB BEFORECALL %s b%d %s record=%v\n", in.fn.Name(), b.Index, x.Name(), e.record)
 			}
+			if e.scanNeed != nil && e.record && e.scanFns[in.fn.Name()] {
+				if off, p, isT := e.prefixTest(in, x); isT {
+					if term, ok := in.bindStr[p]; ok {
+						need := e.scanNeed[term]
+						g := e.at.get("entryPos", "cursor at entry", false)
+						e.requireAt(st, in.fn, x, "C14/R10", fmt.Sprintf("%s: the search for %q starts behind the comment opener", funcName(in.fn), term),
+							[]string{fmt.Sprintf("cursor - start of the comment >= %d", need)}, []lin{linAtom(e.P).add(off).sub(linAtom(g)).add(linConst(-need))})
+						if e.prefixTests == nil {
+							e.prefixTests = map[*ssa.Function]int{}
+						}
+						if off.isConst() && off.k == 0 {
+							e.prefixTests[in.fn]++
+						}
+					}
+				}
+			}
 			var searchLo atomID
 			var searchLoVal lin
 			if e.scanNeed != nil && e.scanFns[in.fn.Name()] {
@@ -2004,6 +2021,14 @@ func (e *lbEngine) execCall(in *lbInst, st *lstate, call *ssa.Call) *lstate {
 	case "unicode/utf8.RuneLen":
 		r := linAtom(e.atom(call))
 		return st.ge(r, linConst(-1)).ge(linConst(4), r)
+	}
+	switch full {
+	case "strings.HasPrefix", "strings.HasSuffix", "bytes.HasPrefix", "bytes.HasSuffix":
+		if len(com.Args) == 2 {
+			// true only when the second operand fits into the first
+			g := e.atom(call)
+			return st.with(lfact{g: g, gp: true, l: e.lenLin(in, com.Args[0]).sub(e.lenLin(in, com.Args[1]))})
+		}
 	}
 	if _, ok := lbSearchFns[full]; ok && len(com.Args) == 2 {
 		// -1 <= r <= len(s); on the found side (r >= 0, see refine) r + len(needle) <= len(s)
@@ -2356,6 +2381,82 @@ func (e *lbEngine) loopThresholds(in *lbInst, fn *ssa.Function, header *ssa.Basi
 		}
 	}
 	return out
+}
+
+// prefixTest: call is h(l, off, s) of a lexer method whose body is `return strings.HasPrefix(l.Buffer[l.pos+off:], s)`,
+// s being a string parameter of the calling function: "the bytes at cursor+off begin with s". Returns off and s.
+func (e *lbEngine) prefixTest(in *lbInst, call *ssa.Call) (lin, *ssa.Parameter, bool) {
+	h := call.Call.StaticCallee()
+	if h == nil || h.Blocks == nil || len(h.Blocks) != 1 || h.Signature.Recv() == nil || len(h.Params) != 3 || len(call.Call.Args) != 3 {
+		return lin{}, nil, false
+	}
+	if e.aliasOf(in, call.Call.Args[0]) != "lexer" {
+		return lin{}, nil, false
+	}
+	ret, ok := h.Blocks[0].Instrs[len(h.Blocks[0].Instrs)-1].(*ssa.Return)
+	if !ok || len(ret.Results) != 1 {
+		return lin{}, nil, false
+	}
+	hp, ok := ret.Results[0].(*ssa.Call)
+	if !ok || hp.Call.StaticCallee() == nil || hp.Call.StaticCallee().String() != "strings.HasPrefix" || len(hp.Call.Args) != 2 {
+		return lin{}, nil, false
+	}
+	// the needle is h's string parameter, the text a slice of the buffer from pos + (h's int parameter) to the end
+	var sp, ip *ssa.Parameter
+	for _, p := range h.Params[1:] {
+		if isStringType(p.Type()) {
+			sp = p
+		} else if isIntType(p.Type()) {
+			ip = p
+		}
+	}
+	if sp == nil || ip == nil || hp.Call.Args[1] != ssa.Value(sp) {
+		return lin{}, nil, false
+	}
+	sl, ok := hp.Call.Args[0].(*ssa.Slice)
+	if !ok || sl.High != nil || sl.Low == nil {
+		return lin{}, nil, false
+	}
+	bo, ok := sl.Low.(*ssa.BinOp)
+	if !ok || bo.Op != token.ADD {
+		return lin{}, nil, false
+	}
+	isPos := func(v ssa.Value) bool {
+		ld, ok := isLoad(v)
+		if !ok {
+			return false
+		}
+		fa, ok := ld.(*ssa.FieldAddr)
+		return ok && fieldAddrName(fa) == "pos" && fa.X == ssa.Value(h.Params[0])
+	}
+	if !((isPos(bo.X) && bo.Y == ssa.Value(ip)) || (isPos(bo.Y) && bo.X == ssa.Value(ip))) {
+		return lin{}, nil, false
+	}
+	// the buffer operand
+	if ld, ok := isLoad(sl.X); !ok {
+		return lin{}, nil, false
+	} else if fa, ok := ld.(*ssa.FieldAddr); !ok || fieldAddrName(fa) != "Buffer" {
+		return lin{}, nil, false
+	}
+	// arguments of the call: which is the offset, which the string
+	var off lin
+	var strArg *ssa.Parameter
+	for i, p := range h.Params {
+		if p == ip {
+			l, ok := e.linear(in, call.Call.Args[i])
+			if !ok {
+				return lin{}, nil, false
+			}
+			off = l
+		}
+		if p == sp {
+			strArg, _ = call.Call.Args[i].(*ssa.Parameter)
+		}
+	}
+	if strArg == nil {
+		return lin{}, nil, false
+	}
+	return off, strArg, true
 }
 
 func (e *lbEngine) inScope(fn *ssa.Function) bool {
@@ -2758,6 +2859,12 @@ func (e *lbEngine) scanObligations(in *lbInst, fn *ssa.Function, b *ssa.BasicBlo
 					if bo, ok := iff.Cond.(*ssa.BinOp); ok && bo.Op == token.EQL && isStringType(bo.X.Type()) {
 						isParam := func(v ssa.Value) bool { _, ok := v.(*ssa.Parameter); return ok }
 						if isParam(bo.X) || isParam(bo.Y) {
+							continue
+						}
+					}
+					// the same test through a helper: peekHas(0, end) = strings.HasPrefix(l.Buffer[l.pos:], end)
+					if c, ok := iff.Cond.(*ssa.Call); ok {
+						if _, _, isT := e.prefixTest(in, c); isT {
 							continue
 						}
 					}
@@ -4249,6 +4356,9 @@ func ruleC14R8(w *World, r *Report) {
 		if p, isP := c.Call.Args[1].(*ssa.Parameter); isP && p.Parent() == fn {
 			matched = true // a library search for `end` in the input (where it looks, and what is done with the answer, are obligations above)
 		}
+	}
+	if e.prefixTests[fn] > 0 {
+		matched = true // a prefix test at the cursor through a helper of the lexer (peekHas(0, end))
 	}
 	if matched {
 		r.ok(rule, "(*Lexer).skipCommentUntil: terminator test at the cursor", w.pos(fn.Pos()), "the bytes at the cursor are compared with the terminator `end`")
